@@ -138,7 +138,8 @@ pub fn run_case(m: Manner, c: Cmd, w: Wrap, dir: &PathBuf) -> CaseResult {
 			Ok(other) => Ok((tq.elapsed().as_millis(), format!("main task ended with {other:?}"))),
 		}
 	});
-	drop(rt);
+	// a subject task that spins without yielding would block an ordinary runtime drop forever
+	rt.shutdown_timeout(Duration::from_secs(2));
 	let (main_ms, mut problem) = match res {
 		Ok(x) => x,
 		Err(e) => return CaseResult { name, ok: false, detail: format!("machinery: {e}"), main_ms: 0 },
